@@ -289,8 +289,17 @@ def run(ctx):
                 "fault changes the tool's input; distinct = (capture seed, fault index).")
     ctx.assumptions = ["bystander equality is judged on the strictly decoded output packets of that connection (timestamps, "
                        "addresses, flags, seq/ack, payload)"]
+    import session_corr
+    ctx.prove(["TLX.Props.C03"])
+    ctx.require_theorems(session_corr.THEOREMS_C03)
+    session_corr.correspond(ctx)      # ties TLX.Session (the model the theorems are about) to the real Session
     explore(ctx)
-    return ctx.finish(search=lambda c: explore(c, scale=2))
+
+    def search(c):
+        session_corr.search(c)
+        if not c.failures:
+            explore(c, scale=2)
+    return ctx.finish(search=search)
 
 
 def replay(ctx, obj):
